@@ -20,6 +20,9 @@ def dispatch(pid, tier, replay):
     if pid == "C10":
         import static_checks
         return static_checks.c10(tier)
+    if pid == "C07":
+        import tax_checks
+        return tax_checks.c07(tier)
     raise common.MachineryError("no check for " + pid)
 
 
